@@ -344,6 +344,7 @@ func C19() *engine.Check {
 			c19ReadSeqSub(),
 			c19PrefixSub(),
 			c19KeyBufSub(),
+			c19OddKeySub(),
 			c19ConcSub(), concRaceSub("C19"),
 		},
 		Assumptions: []string{
@@ -656,7 +657,7 @@ func c19TokenSub() *engine.Sub {
 	return &engine.Sub{
 		Name:   "through-tokens",
 		Serial: true,
-		Rule:   "encrypted metadata added through delegation / invocation options, sealed (DAG-CBOR) or encoded (DAG-JSON) and decoded again: the same key returns the plaintext, a different key fails, the plaintext (len>=16) does not occur in the sealed bytes; four more tokens built with the same pinned token nonce, metadata key, encryption key and plaintext (the nonce option before / after the metadata option) all store different ciphertexts; non-trivial = all",
+		Rule:   "encrypted metadata added through delegation / invocation options, sealed (DAG-CBOR) or encoded (DAG-JSON) and decoded again: the same key returns the plaintext, a different key fails, the plaintext (len>=16) does not occur in the sealed bytes; four more tokens built with the same pinned token nonce, metadata key, encryption key and plaintext (the nonce option before / after the metadata option) all store different ciphertexts, and so do two tokens built from ONE encrypted-metadata option value; non-trivial = all",
 		Bound:  func(string) string { return "2 kinds x 2 codecs x 6 lengths x {string, bytes}" },
 		Gen: func(tier string, emit func(any) bool) {
 			for _, kind := range []string{"dlg", "inv"} {
@@ -790,6 +791,44 @@ func c19TokenSub() *engine.Sub {
 						return
 					}
 					seen[string(stored)] = order
+				}
+				// ONE option value handed to two constructor calls: two tokens, two encryptions
+				{
+					var a, b []byte
+					var berr error
+					if cs.Kind == "dlg" {
+						opt := delegation.WithEncryptedMetaBytes("secret", pt, c19Key)
+						if cs.AsStr {
+							opt = delegation.WithEncryptedMetaString("secret", string(pt), c19Key)
+						}
+						var t1, t2 *delegation.Token
+						if t1, berr = delegation.New(k.DID, otherPrincipal(k, 1), "/a", nil, opt); berr == nil {
+							if t2, berr = delegation.Root(k.DID, otherPrincipal(k, 1), "/b", nil, opt); berr == nil {
+								a, _ = t1.Meta().GetBytes("secret")
+								b, _ = t2.Meta().GetBytes("secret")
+							}
+						}
+					} else {
+						opt := invocation.WithEncryptedMetaBytes("secret", pt, c19Key)
+						if cs.AsStr {
+							opt = invocation.WithEncryptedMetaString("secret", string(pt), c19Key)
+						}
+						var t1, t2 *invocation.Token
+						if t1, berr = invocation.New(k.DID, otherPrincipal(k, 1), "/a", []cid.Cid{cidPool[0]}, opt); berr == nil {
+							if t2, berr = invocation.New(k.DID, otherPrincipal(k, 2), "/b", []cid.Cid{cidPool[1]}, opt); berr == nil {
+								a, _ = t1.Meta().GetBytes("secret")
+								b, _ = t2.Meta().GetBytes("secret")
+							}
+						}
+					}
+					ctx.Eval(2)
+					if berr != nil {
+						ctx.Failf(cs, "token/constructor-fails", "constructor with a re-used encrypted-metadata option fails: %v", berr)
+					} else if len(a) == 0 || bytes.Equal(a, b) {
+						ctx.Failf(cs, "token/same-ciphertext-twice", "one option value passed to two constructor calls puts the same ciphertext (same nonce) into both tokens")
+					} else if len(a) >= 24 && bytes.Equal(a[:24], b[:24]) {
+						ctx.Failf(cs, "token/same-nonce-twice", "one option value passed to two constructor calls uses the same nonce in both tokens")
+					}
 				}
 			})
 		},
